@@ -15,6 +15,23 @@ fn subst(s: &str) -> String {
     s.replace('^', "\u{1}").replace('@', "\u{e9}")
 }
 
+/// the harness's own spelling of the file-name encoding: UTF-8 bytes, everything but
+/// [A-Za-z0-9_.~-] as %XX with upper-case hex
+fn enc(name: &str) -> String {
+    let mut out = String::new();
+    for b in name.bytes() {
+        if b.is_ascii_alphanumeric() || matches!(b, b'_' | b'.' | b'~' | b'-') {
+            out.push(b as char);
+        } else {
+            out.push_str(&format!("%{b:02X}"));
+        }
+    }
+    out
+}
+fn file_of(c: &Value, name: &str) -> String {
+    c["file"].as_str().map(|x| x.to_string()).unwrap_or_else(|| format!("{}.json", enc(name)))
+}
+
 fn listing(dir: &Path) -> Vec<String> {
     // every entry below dir, relative, directories marked with a trailing '/'
     let mut out = Vec::new();
@@ -63,7 +80,7 @@ fn build(name: &str, consistent: bool, file: &str) -> (MemTransport, Vec<u8>) {
 
 async fn full(c: &Value, consistent: bool) -> Value {
     let name = subst(c["name"].as_str().unwrap());
-    let file = c["file"].as_str().unwrap().to_string();
+    let file = file_of(c, &name);
     let expect_file = if consistent { format!("1.{file}") } else { file.clone() };
     let (t, shipped) = build(&name, consistent, &file);
     let sand = scratch("c16");
@@ -150,7 +167,7 @@ pub fn run(args: &[String]) {
         let fname = dt.filename(false);
         let fname_c = dt.filename(true);
         let mut row = json!({"in": c, "filename": fname, "filename_consistent": fname_c});
-        if name.chars().count() <= deep && !name.is_empty() {
+        if (name.chars().count() <= deep || c["deep"] == true) && !name.is_empty() {
             row["full"] = json!([full(&c, false).await, full(&c, true).await]);
             row["editor"] = json!([editor_write(&c, false).await, editor_write(&c, true).await]);
         }
